@@ -51,8 +51,9 @@ def tdForm (v td : Str) : Bool :=
     | none => td == v
     | some (a, b) => hasPrefix a td && hasSuffix b (td.drop a.length)
 
-/-- CIDR containment over `Nat`: the first `len` of the 32 bits agree. -/
-def cidrHas (c : Cidr) (ip : Nat) : Bool := ip / 2 ^ (32 - c.len) == c.addr / 2 ^ (32 - c.len)
+/-- CIDR containment over `Nat`: same family, and the first `len` bits of the address agree. -/
+def cidrHas (c : Cidr) (ip : IP) : Bool :=
+  c.v6 == ip.v6 && ip.val / 2 ^ (c.width - c.len) == c.addr / 2 ^ (c.width - c.len)
 
 /-- A string-or-list attribute (JWT claim, metadata) matches a value form. -/
 def mvalForm (v : Str) : Option MVal → Bool
@@ -148,14 +149,23 @@ def policyMatches (p : Policy) (req : Request) : Bool := p.rules.any (ruleMatche
 The mesh has a local trust domain and aliases (`bundle`, local first); all of them name the same
 identities.  A principal value `<td>/ns/<ns>/sa/<sa>` whose trust domain is one of the bundle (or the
 conventional `cluster.local`, which stands for the local trust domain) denotes that identity in
-every trust domain of the bundle; a `trustDomains` value that is one of the bundle denotes all of
-them.  Anything else is taken literally. -/
+every trust domain of the bundle; when the trust-domain part is a `*suffix` pattern that covers some
+trust domains of the bundle, the value stands as written (it covers those itself) and in addition
+denotes the same identity in the bundle's other trust domains; a `trustDomains` value that is one of
+the bundle denotes all of them.  Anything else is taken literally (in particular a `*` elsewhere in
+the trust-domain part is an ordinary character, as in every exact-match value). -/
+
+/-- The `*suffix` trust-domain part `pat` covers trust domain `t`. -/
+def coversTD (pat t : Str) : Bool := hasPrefix star pat && hasSuffix (pat.drop 1) t
 
 def aliasValues (bundle : List Str) (v : Str) : List Str :=
   match splitOn '/' v with
   | [td, a, b, c, d] =>
-    if td != star && (bundle.contains td || td == clusterLocal) then
+    if td == star then [v]
+    else if bundle.contains td || td == clusterLocal then
       bundle.map fun t => join ['/'] [t, a, b, c, d]
+    else if bundle.any (coversTD td) then
+      bundle.map fun t => if coversTD td t then v else join ['/'] [t, a, b, c, d]
     else [v]
   | _ => [v]
 
